@@ -411,7 +411,78 @@ def _loop_multi(fn, loop):
     return var, lo, c[2]
 
 
+
+def pivot_search_coverage(ctx, rule='pivot-search-covers-reduced-column'):
+    """Bunch-Kaufman needs lambda = max |A[i,k]|, i = k+1..n-1 and sigma = max |A[i,r]|, i = k..n-1, i != r, of the REDUCED matrix.
+    With the lower triangle stored, column r splits into the stored part below the diagonal (rows r+1..n-1, scanned by the
+    column scan) and the part A[r, j], j = k..r-1, read through the symmetric entries.  Decided structurally: the column scan
+    starts with row k+1 and walks to the end of the column; the row scan runs over exactly j in [k, r) reading A[r, j]; the
+    column scan of column r is made whenever r is not the last column; each comparison keeps the larger magnitude and records
+    its row."""
+    from .eigsbase import loop_range
+    n = 0
+    for fn in ctx.F.insts('Spectra::BKLDLT::find_sigma'):
+        n += 1
+        pn = [fn.locals[v]['name'] for v in fn.params]
+        K, R, P = (('P', x) for x in pn)
+        probs = []
+        loops = [x for x in fn.walk() if x['k'] == 'ForStmt']
+        rg = loop_range(fn, loops[0]) if len(loops) == 1 else None
+        if rg is None:
+            raise AnalysisBroken('%s: row scan not recognised' % fn.qname)
+        var, lo, hi = rg
+        if lo != K or hi != R:
+            probs.append('the scan of A[r, j] runs over j in [%s, %s), the reduced column needs [%s, %s): entries are left out of sigma' % (show(lo), show(hi), pn[0], pn[1]))
+        reads = [sym(fn, x, inline=False) for x in fn.walk(loops[0]['body']) if x['k'] == 'CXXMemberCallExpr' and x.get('callee') == 'coeff']
+        if not reads or any(t[-2:] != (R, ('L', var)) for t in reads):
+            probs.append('the row scan does not read A[r, j]')
+        calls = [x for x in fn.walk() if x['k'] == 'CXXMemberCallExpr' and x.get('callee') == 'find_lambda']
+        okc = len(calls) == 1
+        if okc:
+            a = [sym(fn, y, inline=False) for y in fn.call_args(calls[0])]
+            g = [anc for anc in fn.ancestors(calls[0]) if anc['k'] == 'IfStmt']
+            okc = a == [R, P] and len(g) == 1 and sym(fn, g[0]['cond'], inline=False) == ('<', R, ('-', ('F', 'm_n'), ('lit', '1'))) and fn.within(calls[0], g[0]['then'])
+        if not okc:
+            probs.append('the stored part of column r is not scanned exactly when r < n - 1')
+        ctx.check(not probs, rule, 'BKLDLT::find_sigma', fn.qname,
+                  'sigma = max over the stored column part (r < n - 1) and over A[r, j], j in [k, r)' if not probs else '; '.join(probs))
+    for fn in ctx.F.insts('Spectra::BKLDLT::find_lambda'):
+        n += 1
+        pn = [fn.locals[v]['name'] for v in fn.params]
+        probs = []
+        decl = {}
+        for x in fn.walk():
+            if x['k'] == 'DeclStmt':
+                for d in x['decls']:
+                    if 'init' in d:
+                        decl[fn.locals[d['var']]['name']] = sym(fn, d['init'], inline=False)
+        loops = [x for x in fn.walk() if x['k'] == 'ForStmt']
+        head = [k_ for k_, v in decl.items() if v == ('col_pointer', ('this',), ('P', pn[0]))]
+        end = [k_ for k_, v in decl.items() if v == ('col_pointer', ('this',), ('+', ('P', pn[0]), ('lit', '1')))]
+        if len(loops) != 1 or len(head) != 1 or len(end) != 1:
+            raise AnalysisBroken('%s: column scan not recognised (%s)' % (fn.qname, decl))
+        lp = loops[0]
+        init = fn.node(lp['init'])
+        pv = fn.locals[init['decls'][0]['var']]['name']
+        start = sym(fn, init['decls'][0]['init'], inline=False)
+        cond = sym(fn, lp['cond'], inline=False)
+        inc = sym(fn, lp['inc'], inline=False)
+        first = [v for k_, v in decl.items() if v[0] == 'call' and v[1] == 'abs' and v[2] == ('[]', ('L', head[0]), ('lit', '1'))]
+        if not first:
+            probs.append('the scan does not start with the first sub-diagonal entry A[k+1, k]')
+        if start != ('+', ('L', head[0]), ('lit', '2')) or cond not in (('<', ('L', pv), ('L', end[0])), ('!=', ('L', pv), ('L', end[0])), ('!=', ('L', end[0]), ('L', pv))) or inc != ('u++', ('L', pv)):
+            probs.append('the scan does not continue from A[k+2, k] to the end of column k (start %s, condition %s)' % (show(start), show(cond)))
+        asg = [sym(fn, x, inline=False) for x in fn.walk() if x['k'] == 'BinaryOperator' and x.get('op') == '=']
+        if ('=', ('P', pn[1]), ('+', ('P', pn[0]), ('lit', '1'))) not in asg:
+            probs.append('the row index does not start at k + 1')
+        ctx.check(not probs, rule, 'BKLDLT::find_lambda', fn.qname,
+                  'lambda = max over rows k+1 .. n-1 of column k (first entry, then a walk to the end of the column)' if not probs else '; '.join(probs))
+    if n < 4:
+        raise AnalysisBroken('pivot searches: only %d instantiations analysed' % n)
+
+
 def run(ctx):
+    pivot_search_coverage(ctx)
     status_assigned(ctx)
     pivot_guards(ctx)
     pivot_candidate_tested(ctx)
